@@ -208,6 +208,18 @@ Example C06_short_streams :
    (final c, wg c, map (fun j => received (tres (gett c (S j)))) [1; 2; 3]) = (true, 0, [[7%Z]; []; []])).
 Proof. vm_compute. repeat split; reflexivity. Qed.
 
+(* The theorems never look at a value: streams of repeated and zero values are instances like any other.
+   (The harness encodes the zero value of the element type - 0, "", nil pointer, nil interface, nil slice -
+   as 0 and runs such streams through the real Queue[string], Queue[*int], Queue[any], Queue[[]int].) *)
+Example C06_zero_values :
+  (let c := run (splitjoin_prog [0%Z; 0%Z; 10%Z; 0%Z] 2 1) (complete_sched true (splitjoin_prog [0%Z; 0%Z; 10%Z; 0%Z] 2 1) 400) in
+   (final c, wg c, received (tres (gett c 3)), told_closed_b (tres (gett c 3))) = (true, 0, [0%Z; 0%Z; 10%Z; 0%Z], true)) /\
+  (let c := run (fork_prog [0%Z; 0%Z; 0%Z] 2 1) (complete_sched false (fork_prog [0%Z; 0%Z; 0%Z] 2 1) 400) in
+   (final c, wg c, map (fun j => received (tres (gett c (S j)))) [1; 2]) = (true, 0, [[0%Z; 0%Z; 0%Z]; [0%Z; 0%Z; 0%Z]])) /\
+  (let c := run (split_prog [0%Z; 11%Z; 0%Z] 2 2) (complete_sched true (split_prog [0%Z; 11%Z; 0%Z] 2 2) 400) in
+   (final c, wg c, map (fun j => received (tres (gett c (S j)))) [1; 2]) = (true, 0, [[0%Z; 0%Z]; [11%Z]])).
+Proof. vm_compute. repeat split; reflexivity. Qed.
+
 Print Assumptions C06_fork_safe.
 Print Assumptions C06_split_safe.
 Print Assumptions C06_split_exactly_one_output.
